@@ -56,7 +56,10 @@ def run(ctx):
     # ---- header ---------------------------------------------------------------------
     fh = repo.func(PF, "Hunk.get_header")
     tmpl = [n.value for n in walk_own(fh) if isinstance(n, ast.Constant) and isinstance(n.value, bytes) and n.value.startswith(b"@@")]
+    from ..astutil import bind_roles, canonicalise
+
     fr = repo.func(PF, "hunk_from_header")
+    fr = canonicalise(fr, bind_roles(fr, {"matches": ("assign", "~re\\.match\\(.*\\)"), "orig": ("assign", "{matches}.group(1).split(b' ')", 0), "mod": ("assign", "{matches}.group(1).split(b' ')", 1)}, f"{PF}:hunk_from_header"))
     pats = [c.args[0].value for c in calls_in(fr) if norm(c.func) == "re.match" and isinstance(c.args[0], ast.Constant)]
     ok = tmpl == [b"@@ -%s +%s @@%s\n"] and len(pats) == 1
     if ok:
@@ -73,6 +76,7 @@ def run(ctx):
     # ---- patcher ----------------------------------------------------------------------
     fn = repo.func(PF, "iter_patched_from_hunks")
     where = f"{PF}:iter_patched_from_hunks"
+    fn = canonicalise(fn, bind_roles(fn, {"hunk": ("for", "hunks"), "hunk_line": ("for", "{hunk}.lines"), "orig_line": ("assign", "next(orig_lines)"), "line_no": ("assign", "1")}, where))
     g = build_cfg(fn)
     cmp_tests = [n.id for n in g.nodes if n.kind == "test" and norm(n.ast) == "orig_line != hunk_line.contents"]
     takes = [n.id for n in g.nodes if n.kind == "stmt" and isinstance(n.ast, ast.Assign) and norm(n.ast.targets[0]) == "orig_line" and "next(orig_lines)" in norm(n.ast.value)]
